@@ -37,14 +37,21 @@ package ledger
 //
 // Not covered: concurrent commit during a scan (E-SCHED), the REST token encoding, pebbledb.
 //
-// Mutants (bin/mut), see final report:
-//  M1 sqlitedriver/sql.go processKvRows: `key <= cursor` -> `key < cursor`
-//  M2 acctupdates.go LookupKvPairsByPrefix: cutoff filter dropped
-//  M3 acctupdates.go lookupAssetResources: no over-request for in-memory deletions
-//  M4 acctupdates.go lookupApplicationResources: delta-only ids beyond the DB page merged
+// Mutants (bin/mut ... --only), outcomes:
+//  M1 sqlitedriver/sql.go processKvRows: `key <= cursor` -> `key < cursor`        DETECTED
+//  M2 acctupdates.go LookupKvPairsByPrefix: cutoff filter dropped (needs a byte cap
+//     that shortens the DB page + a delta-created key beyond it + more DB rows)  DETECTED
+//  M3 acctupdates.go lookupAssetResources: no over-request for in-memory deletions DETECTED
+//  M4 acctupdates.go lookupApplicationResources: delta-only ids beyond the DB page
+//     merged (`dbHasMore && appID > dbMaxID` dropped)                            MISSED -
+//     equivalent: the over-request keeps >= limit DB survivors on a full page, so
+//     anything merged beyond dbMaxID is cut by the final sort+truncate; replaced by:
+//  M5 acctupdates.go LookupKvPairsByPrefix delta walk: `keyInRound <= cursor` -> `<` DETECTED
+//  M6 acctupdates.go lookupApplicationResources: creator-only DB rows dropped      DETECTED
 
 import (
 	"bytes"
+	"encoding/json"
 	"fmt"
 	"sort"
 	"strings"
@@ -672,6 +679,21 @@ func TestVerif_C10(t *testing.T) {
 			jobs = append(jobs, job{v, m})
 		}
 	}
+	if raw := r.ReplayRequest(); raw != nil {
+		// vcheck C10 --replay <file>: re-run exactly one (placement, flush mode) state
+		var req struct {
+			Placement [c10N]int `json:"placement"`
+			Mode      string    `json:"mode"`
+		}
+		if json.Unmarshal(raw, &req) == nil {
+			jobs = nil
+			for m, n := range c10ModeNames {
+				if n == req.Mode {
+					jobs = []job{{req.Placement, m}}
+				}
+			}
+		}
+	}
 	var states, transitions, scans, pages atomic.Int64
 	visited := r.ParallelFor(len(jobs), func(i int) {
 		if r.Violations() > 0 {
@@ -713,7 +735,7 @@ func TestVerif_C10(t *testing.T) {
 	r.Set("pages_pulled", pages.Load())
 	exhaustive := visited == int64(len(jobs)) && r.Violations() == 0
 	cov := ve.Coverage{
-		Rule: fmt.Sprintf("every placement vector of 5 prefix-sharing positions over {absent, disk, created-in-deltas, deleted-in-deltas, deleted+recreated} with at most %d positions not plainly on disk (%d vectors) x flush placement %v, each realised by real transactions + one synchronous flush on a real Ledger; per state: LookupAssets / LookupApplications (params on/off) for holder, creator and a non-existent address, page limits 1..7, every start token; LookupKvPairsByPrefix at every round 0..latest+1, limits 1..7, every name prefix, start cursors on/between/outside keys, 9 byte caps, values on/off; pages pulled with the returned next token until exhaustion and compared with the fold of the evaluator's deltas", maxOdd, len(vectors), c10ModesUsed(modes)),
+		Rule:   fmt.Sprintf("every placement vector of 5 prefix-sharing positions over {absent, disk, created-in-deltas, deleted-in-deltas, deleted+recreated} with at most %d positions not plainly on disk (%d vectors) x flush placement %v, each realised by real transactions + one synchronous flush on a real Ledger; per state: LookupAssets / LookupApplications (params on/off) for holder, creator and a non-existent address, page limits 1..7, every start token; LookupKvPairsByPrefix at every round 0..latest+1, limits 1..7, every name prefix, start cursors on/between/outside keys, 9 byte caps, values on/off; pages pulled with the returned next token until exhaustion and compared with the fold of the evaluator's deltas; evaluations = paged scans; a distinct class = (flush placement, listing kind, queried party, length of the reference listing, more than one page?, byte cap?)", maxOdd, len(vectors), c10ModesUsed(modes)),
 		States: states.Load(), Transitions: transitions.Load(), Traces: scans.Load(), Exhaustive: exhaustive,
 	}
 	r.Assume("reference listing = fold of the StateDeltas returned by the real BlockEvaluator")
